@@ -93,3 +93,19 @@ Theorem C10_stream_in_source :
   stream_unsubscribes_on_exit = true /\ wait_returns_first_yielded = true /\ shortcuts_delegate = true.
 Proof. exact stream_source_shape. Qed.
 Print Assumptions C10_stream_in_source.
+
+(* exactly the ACTIVE subscribers: a subscriber that leaves -- with what Signal._subscribe undoes in its finally
+   clause as read from the source on this run -- leaves alone: every other subscriber, subscribed before or after
+   him, stays exactly as it is ... *)
+Theorem C10_leave_changes_only_the_leaver : forall s sid j, j <> sid ->
+  nth_error (streams (fst (sstep s (Leave sid)))) j = nth_error (streams s) j.
+Proof. exact leave_changes_only_the_leaver. Qed.
+Print Assumptions C10_leave_changes_only_the_leaver.
+
+(* ... and he himself is subscribed to nothing any more (what he had been yielded stays his) *)
+Theorem C10_leave_unsubscribes_the_leaver : forall s sid st c,
+  nth_error (streams s) sid = Some st -> s_active st = true ->
+  exists st', nth_error (streams (fst (sstep s (Leave sid)))) sid = Some st' /\ subscribed c st' = false /\
+              s_yielded st' = s_yielded st.
+Proof. exact leave_unsubscribes_the_leaver. Qed.
+Print Assumptions C10_leave_unsubscribes_the_leaver.
